@@ -325,8 +325,8 @@ def c16(run):
     ms = r11_symbolic.marked(prog)
     r1_resolve.run_r1(run, closure(ms, depth=1 if run.tier == 'quick' else None, prog=prog))
     run.floor('R11', 40)
-    run.floor('R11d', 4)
-    run.floor('R11a', 8)
+    run.floor('R11d', 2)
+    run.floor('R11a', 5)
     run.explanation = ('R11: for each of the functions/methods carrying ":SymPy: supported" (read from the docstrings on '
                        'every run), arguments are tainted with their documented kind (scalar / array) and followed through '
                        'the base functions they call (summaries to a fixpoint); a violation is a tainted value reaching a '
